@@ -281,7 +281,8 @@ pub fn probe_op(idx: u64) -> (usize, Op) {
             let a = if rng.pct(25) && shift <= 36 {
                 // dividend * 10^shift straddles the i128 boundary
                 let target = i128::MAX / p10(shift);
-                target / 2 + (((rng.next_u64() as u128) << 64 | rng.next_u64() as u128) % (target as u128)) as i128
+                let span = if shift == 0 { target / 2 } else { target };
+                target / 2 + (((rng.next_u64() as u128) << 64 | rng.next_u64() as u128) % (span as u128)) as i128
             } else {
                 coeff(&mut rng, 36)
             };
